@@ -194,6 +194,32 @@ def header_value(p, place):
     return getattr(p, 'locals_at_end', {}).get(place)
 
 
+def count_always_present(ctx, f, rep, rule):
+    """For a kind that piggybacks (the reader then takes the first two bytes after the header for the member count),
+    the count is written on every path that reaches send_to - unless fewer than three bytes were left, in which case
+    nothing can follow either.  No other reason (an empty backlog, say) may skip it: a custom item would be read as
+    the count."""
+    b = f.fn('Foca::send_message')
+    n = 0
+    for p in ctx.paths(f, b, 'none'):
+        calls = {c['id']: c for c in p.calls()}
+        snd = [i for i, e in enumerate(p.events) if e['kind'] == 'call' and e['decl'] == 'runtime::Runtime::send_to']
+        if not snd:
+            continue
+        g = pred_conds(p, snd[0], b)
+        if g.get('needs_piggyback') is not True:
+            continue
+        n += 1
+        count = [e for e in p.events[:snd[0]] if e['kind'] == 'call' and e['decl'] == 'bytes::BufMut::put_u16'
+                 and touches_packet(p, e)]
+        is_rem = lambda v: v[0] == 'call' and v[1] in calls and calls[v[1]]['decl'].endswith('remaining_mut')
+        no_room = any((q.at_most(c, is_rem) or (None, 99))[1] <= 2 for c in q.conds_before(p, snd[0]))
+        rep.check(bool(count) or no_room, rule, b.nname, 'a piggybacking kind always carries its member count (unless fewer than '
+                  'three bytes are left): nothing else may decide to omit it', site=p.events[snd[0]]['span'],
+                  construct='count-always-present')
+    rep.floor(rule, n, 4, 'send_message paths of piggybacking kinds')
+
+
 def r3_sections(ctx, f, rep, tabs):
     rep.rule('C07-R3', 'kind predicates equal the statement\'s sets (no member section for Announce|TurnUndead|Broadcast, '
                        'no custom items for Announce|TurnUndead, active-members section only for Feed); in send_message '
@@ -235,6 +261,7 @@ def r3_sections(ctx, f, rep, tabs):
                           e['args'][0] == ('ref', q.self_field('custom_broadcasts'), True), 'C07-R3', b.nname,
                           'custom broadcasts only when allow_custom_broadcasts() and should_add_broadcast_data(&dst)',
                           site=e['span'], construct='custom-guard', facts=_g(g))
+    count_always_present(ctx, f, rep, 'C07-R3')
     allowed = {'codec::Codec::encode_header', 'bytes::BufMut::put_u16', 'codec::Codec::encode_member',
                'broadcast::Broadcasts::fill', 'broadcast::Broadcasts::fill_with_len_prefix',
                'bytes::buf::Limit::into_inner'}
